@@ -371,6 +371,7 @@ func perm(r *Rand, n int) []int {
 func genTree(r *Rand, st *genStats) *prog {
 	h := &Header{Arena: genArena(r), T: []uint64{0, 0, 1 << 20, 1 << 24}[r.Intn(4)], D: []uint{0, 0, 64, 30}[r.Intn(4)], Fuel: 3000}
 	p := &prog{r: r, h: h, st: st}
+	setCur(p)
 	s, ok := NewSession(h)
 	if !ok {
 		return p
